@@ -65,7 +65,11 @@ def install(eng, faults=FAULTS, fault_model="both"):
         fault(e, s)
         e.raise_(ExcVal("termios.error"), e.fork(s))
         return [(None, s)]
-    ns = {n: getattr(_termios, n) for n in ("ECHO", "ICANON", "VMIN", "VTIME", "TCSANOW", "TCSAFLUSH", "TCSADRAIN", "TIOCGWINSZ")}
-    ns.update(tcgetattr=Fn(tcgetattr), tcsetattr=Fn(tcsetattr), tcdrain=Fn(tcdrain), error=ClassV("termios.error"))
+    def tcflush(e, s, a, k):
+        fault(e, s)             # discards queued input / output; the attribute set is not touched
+        return [(None, s)]
+    ns = {n: getattr(_termios, n) for n in ("ECHO", "ICANON", "VMIN", "VTIME", "TCSANOW", "TCSAFLUSH", "TCSADRAIN", "TIOCGWINSZ", "TCIFLUSH", "TCOFLUSH", "TCIOFLUSH",
+                                            "ISIG", "ECHONL", "OPOST")}
+    ns.update(tcgetattr=Fn(tcgetattr), tcsetattr=Fn(tcsetattr), tcdrain=Fn(tcdrain), tcflush=Fn(tcflush), error=ClassV("termios.error"))
     eng.genv["termios"] = Namespace("termios", ns)
     return fault
